@@ -250,6 +250,8 @@ def procHandler {P : Type} (sg : Sig P) : Handler (PS P) where
 
 structure CS where
   limit : Nat := 0
+  max : Nat := 0
+  overMax : Option Nat := none
   accepted : List (Nat × String) := []   -- record id, group
   refused : List (Nat × String) := []
   emitted : List (Nat × String) := []
@@ -264,7 +266,7 @@ def cardHandler : Handler CS where
     match toks with
     | "trial" :: rest =>
       match kvNat rest "limit" with
-      | some l => ({ s with limit := l }, [])
+      | some l => ({ s with limit := l, max := (kvNat rest "max").getD 0 }, [])
       | Option.none => (s, ["obs bad-op"])
     | _ => (s, ["obs bad-op"])
   onObs := fun s toks =>
@@ -279,7 +281,8 @@ def cardHandler : Handler CS where
       | _, _ => { s with bad := some "refuse" }
     | ["tr", "emit", k, ids] =>
       match kv [k] "k", (kv [ids] "ids").bind (fun x => if x = "" then some [] else (x.splitOn ",").mapM String.toNat?) with
-      | some k, some ids => { s with emitted := s.emitted ++ ids.map (fun i => (i, k)) }
+      | some k, some ids => { s with emitted := s.emitted ++ ids.map (fun i => (i, k)),
+                                     overMax := if s.max > 0 && ids.length > s.max then some ids.length else s.overMax }
       | _, _ => { s with bad := some "emit" }
     | _ => s
   onEnd := fun s =>
@@ -287,7 +290,11 @@ def cardHandler : Handler CS where
     | some b => [s!"prop cardinality=FAIL sig=C17/proc/unparsable-trace {b}"]
     | Option.none =>
       let groups := (s.accepted.map (·.2)).eraseDups
-      [ if groups.length > s.limit then
+      [ match s.overMax with
+        | some k => s!"prop bound=FAIL sig=C17/proc/batch-exceeds-max items={k} max={s.max}"
+        | Option.none => "prop bound=ok",
+        if s.limit = 0 then "prop cardinality=ok"
+        else if groups.length > s.limit then
           s!"prop cardinality=FAIL sig=C17/proc/accepted-beyond-cardinality-limit groups={groups.length} limit={s.limit}"
         else if !s.refused.isEmpty && groups.length < s.limit then
           s!"prop cardinality=FAIL sig=C17/proc/refused-below-limit groups={groups.length} limit={s.limit}"
